@@ -681,6 +681,33 @@ pub fn spec() -> PropertySpec {
     add!(ULigero);
     add!(MLigero);
     add!(Brakedown);
+    // Equations outside a scheme's domain: a degree-bounded polynomial with a coefficient other than one,
+    // or next to another polynomial or a constant (C06's policy group: the prover must refuse, and the
+    // verifier may not answer positively - not with an empty proof, not with a proof over unbounded
+    // twins, not with the proof of the admissible [1*p_b] and the value moved by the constant).
+    macro_rules! policy {
+        ($s:ty) => {
+            units.push(PropUnit::new(
+                format!("C17:{}:refused-equations", <$s as Scheme>::NAME),
+                120,
+                1200,
+                4,
+                |_| super::c06::case().prop_map(|mut c| { c.mode = 5; c }).boxed(),
+                |c: &super::c06::Case, ctx: &mut CaseCtx| {
+                    let mut inner = CaseCtx::new_like(ctx);
+                    let r = super::c06::check_trait::<$s>(c, &mut inner);
+                    ctx.absorb(inner);
+                    match r {
+                        Err(f) => ctx.fail(f.sig.replacen("C06:", "C17:", 1), f.msg),
+                        Ok(()) => Ok(()),
+                    }
+                },
+            ));
+        };
+    }
+    policy!(Marlin);
+    policy!(Sonic);
+    policy!(Ipa);
     units.push(PropUnit::new(
         "C17:setup+inherent:out-of-domain",
         600,
@@ -691,7 +718,7 @@ pub fn spec() -> PropertySpec {
     ));
     PropertySpec {
         id: "C17",
-        rule: "Request kinds x magnitudes around the boundary (supported+1, max+1, 2max+1, supported+2; key variables +1/+2/-2; hiding 0 and beyond the supported hiding bound) inside otherwise valid generated scenarios: a polynomial larger than the key (degree / total degree / number of variables) handed to commit and to open; hiding bound 0, hiding bound beyond the key, hiding without an RNG; points with too few / too many coordinates handed to open and to check; a query for a polynomial that was not supplied, a commitment or an evaluation missing on the verifier side (batch_check, and check_combinations with a withheld combination value; a queried combination the verifier was not given is skipped by the default implementation - the crate's own equation tests rely on that - and is not asserted); mismatched labels between polynomial and commitment; trim beyond the parameters; a commitment presented to check / batch_check under a degree bound outside the enforced set (preferably just below the bound it was made for); an unsupported or inconsistent degree bound handed to commit (beyond supported / beyond max / not enforced / below the polynomial's degree) and to trim (an enforced-bound list containing, at any position and possibly twice, a bound above the supported degree for SonicKZG10 / above the maximum degree for MarlinKZG10, which by design serves bounds up to max_degree - there the committer must still refuse degrees above the supported degree); setup with degree 0, zero / missing / odd variables; the same for KZG10 and multilinear PST through their inherent APIs. Oracle: the entry point returns Err or aborts - never a commitment, proof or Ok(true). Where a scheme defines the request instead of refusing it (a longer point whose extra coordinates are ignored, an open that does not look at labels) the check demands that whatever is served is sound: no value the polynomial does not take verifies. In-domain requests never aborting is C01's oracle. Non-trivial: magnitude exactly one past the boundary.",
+        rule: "Request kinds x magnitudes around the boundary (supported+1, max+1, 2max+1, supported+2; key variables +1/+2/-2; hiding 0 and beyond the supported hiding bound) inside otherwise valid generated scenarios: a polynomial larger than the key (degree / total degree / number of variables) handed to commit and to open; hiding bound 0, hiding bound beyond the key, hiding without an RNG; points with too few / too many coordinates handed to open and to check; a query for a polynomial that was not supplied, a commitment or an evaluation missing on the verifier side (batch_check, and check_combinations with a withheld combination value; a queried combination the verifier was not given is skipped by the default implementation - the crate's own equation tests rely on that - and is not asserted); mismatched labels between polynomial and commitment; trim beyond the parameters; a commitment presented to check / batch_check under a degree bound outside the enforced set (preferably just below the bound it was made for); an unsupported or inconsistent degree bound handed to commit (beyond supported / beyond max / not enforced / below the polynomial's degree) and to trim (an enforced-bound list containing, at any position and possibly twice, a bound above the supported degree for SonicKZG10 / above the maximum degree for MarlinKZG10, which by design serves bounds up to max_degree - there the committer must still refuse degrees above the supported degree); setup with degree 0, zero / missing / odd variables; the same for KZG10 and multilinear PST through their inherent APIs. Equations a scheme declares outside its domain (Marlin, Sonic, IPA: a degree-bounded polynomial with a coefficient other than one, or next to another polynomial or a constant term) are refused by open_combinations and never answered positively by check_combinations (C06's policy group under this property's id: empty proof, proof over unbounded twins, proof of the admissible [1*p_b] with the value moved by the constant). Oracle: the entry point returns Err or aborts - never a commitment, proof or Ok(true). Where a scheme defines the request instead of refusing it (a longer point whose extra coordinates are ignored, an open that does not look at labels) the check demands that whatever is served is sound: no value the polynomial does not take verifies. In-domain requests never aborting is C01's oracle. Non-trivial: magnitude exactly one past the boundary.",
         assumptions: vec![
             "IPA treats any hiding bound (including 0) as 'hiding' and Ligero parameters do not bound the polynomial size: not out of domain for those schemes",
             "multilinear Ligero / Brakedown verifiers read a point positionally (tensor vectors, inner products that stop at the shorter operand) and the commitment does not record the number of variables: a point lacking its last coordinate is read as if that coordinate were 0, accepting the polynomial's value at the zero-padded point is treated as scheme-defined, any other accepted value is a violation; a point with a surplus coordinate is refused by the prover and verifies only for the zero polynomial (every inner product vanishes), which is allowed for explicitly - for any other polynomial it is a violation",
